@@ -30,7 +30,7 @@ func init() {
 		// forget=1: the proxy client writes and closes at once without waiting for an answer (a
 		// fire-and-forget request); what it wrote must still reach the proxy server
 		sc := &vrt.Scenario{
-			Opt:      vrt.Options{Delay: c.P("delay", "1") == "1", HorizonNs: int64(200 * time.Second)},
+			Opt:      vrt.Options{Delay: c.P("delay", "1") == "1", HorizonNs: int64(200 * time.Second), MemVars: true},
 			Classify: deadlockIs("liveness: the tunnel stopped moving data on healthy connections"),
 			Main: func() {
 				uid := uidOf(0)
